@@ -16,6 +16,7 @@ type openCase struct {
 	Closed clip.Paths64 `json:"closed_subject"`
 	Clip   clip.Paths64 `json:"clip"`
 	D      bool         `json:"floating_point_engine"`
+	Prior  []int        `json:"prior_executes,omitempty"` // clip types executed on the same engine before the judged run
 }
 
 func runOpen(c openCase) (closed, open clip.Paths64, fault string) {
@@ -27,6 +28,9 @@ func runOpen(c openCase) (closed, open clip.Paths64, fault string) {
 			e.AddPaths(sc(c.Closed), clip.Subject, false)
 			e.AddPaths(sc(c.Clip), clip.Clip, false)
 			var dc, do clip.PathsD
+			for _, ct := range c.Prior {
+				e.ExecuteOC(clip.ClipType(ct), clip.FillRule(c.FR), &dc, &do)
+			}
 			if !e.ExecuteOC(clip.ClipType(c.CT), clip.FillRule(c.FR), &dc, &do) {
 				panic("ExecuteOC returned false")
 			}
@@ -38,6 +42,10 @@ func runOpen(c openCase) (closed, open clip.Paths64, fault string) {
 		e.AddPaths(c.Closed, clip.Subject, false)
 		e.AddPaths(c.Clip, clip.Clip, false)
 		closed, open = clip.Paths64{}, clip.Paths64{}
+		for _, ct := range c.Prior {
+			// the engine keeps its paths between executes: earlier runs must not change the judged one
+			e.ExecuteOC(clip.ClipType(ct), clip.FillRule(c.FR), &closed, &open)
+		}
 		if !e.ExecuteOC(clip.ClipType(c.CT), clip.FillRule(c.FR), &closed, &open) {
 			panic("ExecuteOC returned false")
 		}
@@ -111,6 +119,11 @@ func init() {
 			r := NewRng(ctx.Seed, "c09", i)
 			g := GenCfg{Grid: r.Range(3, 8), Unit: 10}
 			c := openCase{CT: r.Range(1, 3), FR: r.Intn(4), D: r.Chance(0.15)}
+			if r.Chance(0.25) {
+				for k := r.Range(1, 2); k > 0; k-- {
+					c.Prior = append(c.Prior, r.Range(1, 4))
+				}
+			}
 			for k := r.Range(1, 2); k > 0; k-- {
 				c.Open = append(c.Open, genPolyline(r, g))
 			}
